@@ -173,3 +173,29 @@ def report(prop, batch, mismatches, make_replay):
         lib.log("   %s  %s" % (fp, json.dumps(batch.explain(m))[:300]))
         nviol += 1
     return nviol, tool, sorted(seen_known)
+
+
+def stack_shape(rec):
+    """(threads, max frames, pending choices while the story can continue, choiceThreads present) from a record's save"""
+    obs = rec.get("obs") or {}
+    sv = obs.get("save") or {}
+    try:
+        fl = sv["flows"][sv["currentFlowName"]]
+        th = fl["callstack"]["threads"]
+        return (len(th), max(len(t["callstack"]) for t in th),
+                len(fl.get("currentChoices", [])) if obs.get("can") else 0, 1 if fl.get("choiceThreads") else 0)
+    except (KeyError, TypeError, ValueError):
+        return (0, 0, 0, 0)
+
+
+def deep_positions(recs, lo=0):
+    """indices i >= lo such that after recs[i] the story is inside a thread, tunnel or function, or has choices
+    pending mid-turn: the places where call-stack handling matters"""
+    out = []
+    for i, r in enumerate(recs):
+        if i < lo:
+            continue
+        t, f, c, ct = stack_shape(r)
+        if t > 1 or f > 1 or c > 0 or ct:
+            out.append(i)
+    return out
